@@ -41,6 +41,7 @@ pub(crate) mod proofs {
                 }
                 None => assert!(s.free == 0,                                 "new: None iff the pool is exhausted"),
             }
+            kani::cover!(true, "end of harness reachable (vacuity guard)");
         }
 
         // @props C14 C05 C03
@@ -68,6 +69,7 @@ pub(crate) mod proofs {
             assert!((&*arc) as *const Droppy == addr && arc.0 == v,          "into_ogre_arc: same slot, same value");
             drop(arc);
             assert!(DROPS.load(SeqCst) == d0 + 1 && pa::free_count(&pool) == s.free, "last shared handle dropped: destroyed once, slot back in the pool");
+            kani::cover!(true, "end of harness reachable (vacuity guard)");
         }
     } )* } }
     unique_proofs! {
